@@ -15,6 +15,7 @@ from pandera.backends.base import (
     CoreParserResult,
 )
 from pandera.backends.pandas.error_formatters import (
+    _multiindex_to_frame,
     consolidate_failure_cases,
     format_generic_error_message,
     format_vectorized_error_message,
@@ -187,18 +188,47 @@ class PandasSchemaBackend(BaseSchemaBackend):
             error_counts=error_counts,
         )
 
+    def can_drop_invalid_rows(self, error_handler: ErrorHandler) -> bool:
+        """Whether every collected error can be attributed to rows.
+
+        Errors with scalar failure cases (e.g. a missing column or a wrong
+        column data type) cannot be repaired by dropping rows, so they must be
+        raised even if ``drop_invalid_rows=True``.
+        """
+        # pylint: disable=import-outside-toplevel
+        from pandera.api.pandas.types import is_table
+
+        return all(
+            is_table(err.failure_cases) and "index" in err.failure_cases
+            for err in error_handler.schema_errors
+        )
+
     def drop_invalid_rows(self, check_obj, error_handler: ErrorHandler):
         """Remove invalid elements in a check obj according to failures in caught by the error handler."""
+        # pylint: disable=import-outside-toplevel
+        from pandera.api.pandas.components import Index
+
         errors = error_handler.schema_errors
         for err in errors:
             index_values = err.failure_cases["index"]
-            if isinstance(check_obj.index, pd.MultiIndex):
-                # MultiIndex values are saved on the error as strings so need to be cast back
-                # to their original types
-                index_tuples = err.failure_cases["index"].apply(eval)
-                index_values = pd.MultiIndex.from_tuples(index_tuples)
-
-            mask = ~check_obj.index.isin(index_values)
+            if isinstance(err.schema, Index):
+                # failure cases of an Index schema identify rows by position
+                mask = ~pd.Series(range(len(check_obj.index))).isin(
+                    index_values
+                )
+                mask = mask.to_numpy()
+            elif isinstance(check_obj.index, pd.MultiIndex):
+                # MultiIndex values are saved on the error as the string
+                # representation of the index tuples, see
+                # error_formatters.reshape_failure_cases
+                index_strings = (
+                    _multiindex_to_frame(check_obj)
+                    .apply(tuple, axis=1)
+                    .astype(str)
+                )
+                mask = ~index_strings.isin(index_values).to_numpy()
+            else:
+                mask = ~check_obj.index.isin(index_values)
 
             check_obj = check_obj.loc[mask]
 
